@@ -87,7 +87,33 @@ func makeJob(seed int64, idx int) *JobSpec {
 	return j
 }
 
-func (j *JobSpec) builder() *parser.Builder {
+// traceSink collects the interceptor invocation order of one parse (per goroutine use: one sink per builder).
+type traceSink struct {
+	mu  sync.Mutex
+	buf map[*parser.Parser][]byte
+}
+
+func (ts *traceSink) add(p *parser.Parser, kind byte, idx int) {
+	ts.mu.Lock()
+	if ts.buf == nil {
+		ts.buf = map[*parser.Parser][]byte{}
+	}
+	ts.buf[p] = append(ts.buf[p], kind, byte('0'+idx))
+	ts.mu.Unlock()
+}
+
+func (ts *traceSink) take(p *parser.Parser) string {
+	ts.mu.Lock()
+	defer ts.mu.Unlock()
+	b := ts.buf[p]
+	delete(ts.buf, p)
+	return h(string(b))
+}
+
+func (j *JobSpec) builder() *parser.Builder { pb, _ := j.builderTraced(); return pb }
+
+func (j *JobSpec) builderTraced() (*parser.Builder, *traceSink) {
+	ts := &traceSink{}
 	lb := lexer.NewBuilder()
 	types := map[byte]token.Type{}
 	for _, rg := range j.Regs {
@@ -153,22 +179,29 @@ func (j *JobSpec) builder() *parser.Builder {
 		})
 	}
 	for i := 0; i < j.NStmt; i++ {
-		pb.UseStatementInterceptor(func(p *parser.Parser, next func() ast.Statement) ast.Statement { return next() })
+		i := i
+		pb.UseStatementInterceptor(func(p *parser.Parser, next func() ast.Statement) ast.Statement {
+			ts.add(p, 's', i)
+			return next()
+		})
 	}
 	for i := 0; i < j.NExpr; i++ {
+		i := i
 		re := i%2 == 1
 		pb.UseExpressionInterceptor(func(p *parser.Parser, next func() ast.Expression) ast.Expression {
+			ts.add(p, 'e', i)
 			if re {
 				return p.ParseRemainingExpression(p.ParsePrefixExpression())
 			}
 			return next()
 		})
 	}
-	return pb
+	return pb, ts
 }
 
 // JobResult: one digest per component so that a difference can be named.
 type JobResult struct {
+	Trace   string   `json:"trace"` // hash of the sequence of interceptor invocations (kind, index): order-sensitive
 	Tree    string   `json:"tree"`
 	Errors  string   `json:"errors"`
 	Outputs []string `json:"outputs"`
@@ -203,13 +236,28 @@ func parseOnly(pb *parser.Builder, src string) (*ast.Program, []parser.ParserErr
 	return prog, p.Errors()
 }
 
-func runJobWith(pb *parser.Builder, j *JobSpec) (res JobResult) {
+func runJobWith(pb *parser.Builder, ts *traceSink, j *JobSpec) (res JobResult) {
 	defer func() {
 		if r := recover(); r != nil {
 			res.Panic = fmt.Sprint(r)
 		}
 	}()
-	prog, errs := parseOnly(pb, j.Src)
+	p := pb.Build(j.Src)
+	return finishJob(p, ts, j)
+}
+
+// finishJob runs an already built parser and the job's compilations.
+func finishJob(p *parser.Parser, ts *traceSink, j *JobSpec) (res JobResult) {
+	defer func() {
+		if r := recover(); r != nil {
+			res.Panic = fmt.Sprint(r)
+		}
+	}()
+	prog, _ := p.ParseProgram()
+	errs := p.Errors()
+	if ts != nil {
+		res.Trace = ts.take(p)
+	}
 	res.Tree = h(norm.SCustom(prog, sCustom) + "\x00" + spewCfg.Sdump(prog))
 	res.Errors = h(fmt.Sprint(errs))
 	if len(errs) == 0 {
@@ -219,7 +267,7 @@ func runJobWith(pb *parser.Builder, j *JobSpec) (res JobResult) {
 	return res
 }
 
-func runJob(j *JobSpec) JobResult { return runJobWith(j.builder(), j) }
+func runJob(j *JobSpec) JobResult { pb, ts := j.builderTraced(); return runJobWith(pb, ts, j) }
 
 // RunSoloJob is the `job` subcommand: the job as the only job of a fresh process.
 func RunSoloJob(seed int64, idx int) {
@@ -266,6 +314,8 @@ func diffResult(a, b JobResult) string {
 	switch {
 	case a.Panic != b.Panic:
 		return "panic"
+	case a.Trace != b.Trace:
+		return "interceptor invocation order"
 	case a.Tree != b.Tree:
 		return "tree"
 	case a.Errors != b.Errors:
@@ -423,20 +473,64 @@ func runC14SharedTree(t *fw.T) {
 	t.Distinct(rd.Src)
 }
 
-// shared builder / shared compiler: promised for orders of use; concurrent use is also observed
+// shared builder / shared compiler used by 16 goroutines at once. The statement promises orders of use for
+// shared builders and compilers, not concurrent use of ONE value, so this round runs in a sacrificial child
+// process: a crash or a race report there is recorded, and only a differing result is judged.
 func runC14SharedBuilder(t *fw.T) {
 	st := c14(t)
 	r := t.Rand()
 	ji := r.IntN(nJobs(t))
-	j := makeJob(st.seed, ji)
-	solo, err := st.soloResult(ji)
-	if err != nil {
-		t.Inconclusive("solo reference process failed", err.Error())
+	exe, _ := os.Executable()
+	cmd := exec.Command(exe, "c14shared", "-seed", fmt.Sprint(st.seed), "-index", fmt.Sprint(ji))
+	env := os.Environ()
+	if base := os.Getenv("VERIF_RACE_LOG"); base != "" {
+		env = append(env, "GORACE=halt_on_error=0 log_path="+base+".shared")
+	}
+	cmd.Env = append(env, "GOMAXPROCS=16")
+	out, err := cmd.Output()
+	solo, serr := st.soloResult(ji)
+	if serr != nil {
+		t.Inconclusive("solo reference process failed", serr.Error())
 		return
 	}
-	pb := j.builder()
+	if err != nil {
+		t.Inconclusive("crash while ONE builder / compiler value was used by 16 goroutines (concurrent use of one value is not promised; recorded, not judged)", clip(err.Error()+" "+tailStr(string(out), 200), 300))
+		return
+	}
+	var rep SharedReport
+	if json.Unmarshal(out, &rep) != nil {
+		t.Inconclusive("shared-value child gave no report", "")
+		return
+	}
+	j := makeJob(st.seed, ji)
+	t.Count("shared_builder_parses", len(rep.Builder))
+	t.Count("shared_compiler_compilations", rep.CompilerRuns)
+	for _, res := range rep.Builder {
+		if d := diffResult(solo, res); d != "" {
+			t.Violate("differs-from-solo-run", "shared builder/"+d, fmt.Sprintf("16 goroutines building parsers from one builder: job %d (%s) gives a different %s than alone", ji, describeJob(j), d),
+				map[string]any{"job": ji, "source": j.Src, "config": describeJob(j)})
+			return
+		}
+	}
+	if rep.CompilerDiffers {
+		t.Violate("shared-compiler-result-differs", "concurrent compile", "one Compiler used from 16 goroutines gives different results", map[string]any{"source": j.Src})
+	}
+	t.Distinct(fmt.Sprint("sb", ji))
+}
+
+type SharedReport struct {
+	Builder         []JobResult `json:"builder"`
+	CompilerRuns    int         `json:"compiler_runs"`
+	CompilerDiffers bool        `json:"compiler_differs"`
+}
+
+// RunSharedChild is the `c14shared` subcommand (sacrificial process).
+func RunSharedChild(seed int64, ji int) {
+	runtime.GOMAXPROCS(16)
+	j := makeJob(seed, ji)
+	pb, ts := j.builderTraced()
 	const G = 16
-	res := make([]JobResult, G)
+	rep := SharedReport{Builder: make([]JobResult, G)}
 	var wg sync.WaitGroup
 	start := make(chan struct{})
 	for g := 0; g < G; g++ {
@@ -444,24 +538,15 @@ func runC14SharedBuilder(t *fw.T) {
 		go func(g int) {
 			defer wg.Done()
 			<-start
-			res[g] = sharedBuilderRun(pb, j)
+			rep.Builder[g] = sharedBuilderRun(pb, ts, j)
 		}(g)
 	}
 	close(start)
 	wg.Wait()
-	t.Count("shared_builder_parses", G)
-	for g := 0; g < G; g++ {
-		if d := diffResult(solo, res[g]); d != "" {
-			t.Violate("differs-from-solo-run", "shared builder/"+d, fmt.Sprintf("16 goroutines building parsers from one builder: job %d (%s) gives a different %s than alone", ji, describeJob(j), d),
-				map[string]any{"job": ji, "source": j.Src, "config": describeJob(j)})
-			return
-		}
-	}
-	// one shared Compiler value used by 16 goroutines
 	prog, errs := parseOnly(j.builder(), j.Src)
 	if len(errs) == 0 {
 		k := compiler.New().WithPrettyPrint(compiler.WithTabs()).WithSourceMap()
-		want := k.Compile(prog)
+		want := compiler.New().WithPrettyPrint(compiler.WithTabs()).WithSourceMap().Compile(prog)
 		got := make([]compiler.CompileResult, G)
 		start2 := make(chan struct{})
 		for g := 0; g < G; g++ {
@@ -475,19 +560,21 @@ func runC14SharedBuilder(t *fw.T) {
 		}
 		close(start2)
 		wg.Wait()
-		t.Count("shared_compiler_compilations", G)
+		rep.CompilerRuns = G
 		for g := 0; g < G; g++ {
 			if got[g].Code != want.Code || got[g].SourceMap == nil || got[g].SourceMap.Mappings != want.SourceMap.Mappings {
-				t.Violate("shared-compiler-result-differs", "concurrent compile", "one Compiler used from 16 goroutines gives different results", map[string]any{"source": j.Src})
-				return
+				rep.CompilerDiffers = true
 			}
 		}
 	}
-	t.Distinct(fmt.Sprint("sb", ji))
+	b, _ := json.Marshal(rep)
+	os.Stdout.Write(b)
 }
 
 //go:noinline
-func sharedBuilderRun(pb *parser.Builder, j *JobSpec) JobResult { return runJobWith(pb, j) }
+func sharedBuilderRun(pb *parser.Builder, ts *traceSink, j *JobSpec) JobResult {
+	return runJobWith(pb, ts, j)
+}
 
 //go:noinline
 func sharedCompilerRun(k *compiler.Compiler, prog *ast.Program) compiler.CompileResult {
@@ -503,82 +590,116 @@ func runC14Sequential(t *fw.T) {
 	for i := range idxs {
 		idxs[i] = r.IntN(nJobs(t))
 	}
-	// builders created first, each used to build several parsers that are run later, interleaved
+	// builders created first, each used to build several parsers that are run later, interleaved; after the
+	// parsers are built the builder is reconfigured (modes toggled, an interceptor and an operator added):
+	// parsers built before must not notice
 	type pend struct {
 		job int
 		j   *JobSpec
 		p   *parser.Parser
-		pb  *parser.Builder
+		ts  *traceSink
 	}
 	var ps []pend
-	for _, ji := range idxs {
-		j := makeJob(st.seed, ji)
-		pb := j.builder()
-		for k := 0; k < 1+r.IntN(3); k++ {
-			ps = append(ps, pend{ji, j, nil, pb})
-		}
-	}
 	ok := t.Guard("build parsers", nil, func() {
-		for i := range ps {
-			ps[i].p = ps[i].pb.Build(ps[i].j.Src)
+		for _, ji := range idxs {
+			j := makeJob(st.seed, ji)
+			pb, ts := j.builderTraced()
+			for k := 0; k < 1+r.IntN(3); k++ {
+				ps = append(ps, pend{ji, j, pb.Build(j.Src), ts})
+			}
+			if r.IntN(2) == 0 {
+				pb.WithTolerantMode(!j.Mode.Tolerant).WithSmartSemicolon(!j.Mode.Smart)
+				pb.UseStatementInterceptor(func(p *parser.Parser, next func() ast.Statement) ast.Statement { next(); return nil })
+				tt := pb.LexerBuilder.RegisterTokenType("late-op")
+				pb.RegisterInfixOperator(tt, 5, func(tok token.Token, l ast.Expression, rr func() ast.Expression) ast.Expression { return l })
+				t.Count("builders_reconfigured_after_build", 1)
+			}
 		}
 	})
 	if !ok {
 		return
 	}
 	r.Shuffle(len(ps), func(a, b int) { ps[a], ps[b] = ps[b], ps[a] })
+	var trees []*ast.Program
 	for _, p := range ps {
 		solo, err := st.soloResult(p.job)
 		if err != nil {
 			t.Inconclusive("solo reference process failed", err.Error())
 			return
 		}
-		var res JobResult
-		func() {
-			defer func() {
-				if rr := recover(); rr != nil {
-					res.Panic = fmt.Sprint(rr)
-				}
-			}()
-			prog, _ := p.p.ParseProgram()
-			errs := p.p.Errors()
-			res.Tree = h(norm.SCustom(prog, sCustom) + "\x00" + spewCfg.Sdump(prog))
-			res.Errors = h(fmt.Sprint(errs))
-			if len(errs) == 0 {
-				// the same tree under all 42 configurations in a random order, twice; results must repeat
-				order := r.Perm(len(allCfgs42))
-				first := map[Cfg]string{}
-				for round := 0; round < 2; round++ {
-					for _, ci := range order {
-						c := allCfgs42[ci]
-						o := compileAll(prog, []Cfg{c})[0]
-						if prev, seen := first[c]; seen && prev != o {
-							t.Violate("recompilation-differs", c.String(), "compiling the same tree again under "+c.String()+" gives a different result", map[string]any{"source": p.j.Src})
-						}
-						first[c] = o
-					}
-					r.Shuffle(len(order), func(a, b int) { order[a], order[b] = order[b], order[a] })
-				}
-				// code with source map == code without
-				for _, c := range AllCodeCfgs() {
-					cm := c
-					cm.Map = true
-					if c.Compile(prog).Code != cm.Compile(prog).Code {
-						t.Violate("source-map-changes-code", cfgClass(c), "requesting a source map changes the generated code", map[string]any{"source": p.j.Src, "config": c.String()})
-					}
-				}
-				if d, c := debug.ToString(prog), CfgCompact.Compile(prog).Code; d != c {
-					t.Violate("debug-string-differs-from-compact", "program", "debug.ToString(program) differs from the compact compilation: "+firstDiff(c, d), map[string]any{"source": p.j.Src})
-				}
-				res.Outputs = compileAll(prog, p.j.Cfgs)
-				res.Debug = h(debug.ToString(prog))
-			}
-		}()
+		res := finishJob(p.p, p.ts, p.j)
 		t.Count("sequential_job_executions", 1)
 		if d := diffResult(solo, res); d != "" {
-			t.Violate("differs-from-solo-run", "sequential history/"+d, fmt.Sprintf("job %d (%s) gives a different %s after a history of other builds/parses/compilations in the same process than alone", p.job, describeJob(p.j), d),
+			t.Violate("differs-from-solo-run", "sequential history/"+d, fmt.Sprintf("job %d (%s) gives a different %s after a history of other builds/parses/compilations in the same process (builders reused and reconfigured after Build) than alone", p.job, describeJob(p.j), d),
 				map[string]any{"job": p.job, "source": p.j.Src, "config": describeJob(p.j), "solo": solo, "here": res})
 			return
+		}
+	}
+	// trees for the compilation histories: plain parses of the jobs' sources that are error-free
+	for _, ji := range idxs {
+		j := makeJob(st.seed, ji)
+		if prog, errs := parseOnly(newBuilder(Mode{}), j.Src); len(errs) == 0 && len(trees) < 4 {
+			trees = append(trees, prog)
+		}
+	}
+	for _, prog := range trees {
+		bad := false
+		t.Guard("compilation history", nil, func() {
+			// the same tree under all 42 configurations in a random order, twice; results must repeat
+			order := r.Perm(len(allCfgs42))
+			first := map[Cfg]string{}
+			for round := 0; round < 2 && !bad; round++ {
+				for _, ci := range order {
+					c := allCfgs42[ci]
+					o := compileAll(prog, []Cfg{c})[0]
+					if prev, seen := first[c]; seen && prev != o {
+						t.Violate("recompilation-differs", cfgClass(c), "compiling the same tree again under "+c.String()+" gives a different result", map[string]any{"source": CfgCompact.Compile(prog).Code})
+						bad = true
+						break
+					}
+					first[c] = o
+				}
+				r.Shuffle(len(order), func(a, b int) { order[a], order[b] = order[b], order[a] })
+			}
+			for _, c := range AllCodeCfgs() {
+				cm := c
+				cm.Map = true
+				if c.Compile(prog).Code != cm.Compile(prog).Code {
+					t.Violate("source-map-changes-code", cfgClass(c), "requesting a source map changes the generated code", map[string]any{"config": c.String()})
+					bad = true
+				}
+			}
+			if d, c := debug.ToString(prog), CfgCompact.Compile(prog).Code; d != c {
+				t.Violate("debug-string-differs-from-compact", "program", "debug.ToString(program) differs from the compact compilation: "+firstDiff(c, d), nil)
+				bad = true
+			}
+		})
+		if bad {
+			return
+		}
+		t.Count("trees_recompiled_under_42_configurations", 1)
+	}
+	// ONE Compiler value compiles many trees one after the other: every result equals a fresh compiler's
+	if len(trees) > 0 {
+		for _, c := range []Cfg{allCfgs42[r.IntN(42)], {Pretty: true, Tabs: true, NoSemi: true, Map: true}, {Pretty: true, Spaces: 2, Map: true}} {
+			k := c.compiler()
+			for round := 0; round < 2*len(trees)+1; round++ {
+				prog := trees[r.IntN(len(trees))]
+				var got, want compiler.CompileResult
+				if !t.Guard("reused compiler", nil, func() { got = k.Compile(prog); want = c.Compile(prog) }) {
+					return
+				}
+				t.Count("compilations_on_reused_compilers", 1)
+				same := got.Code == want.Code && (got.SourceMap == nil) == (want.SourceMap == nil)
+				if same && got.SourceMap != nil {
+					same = got.SourceMap.Mappings == want.SourceMap.Mappings && reflect.DeepEqual(got.SourceMap.Names, want.SourceMap.Names)
+				}
+				if !same {
+					t.Violate("reused-compiler-differs", cfgClass(c), fmt.Sprintf("a Compiler (%s) that already compiled other trees gives a different result than a fresh one (compilation #%d)", c, round+1),
+						map[string]any{"config": c.String(), "fresh_code": want.Code, "reused_code": got.Code})
+					return
+				}
+			}
 		}
 	}
 	checkPackageTables(t)
@@ -608,6 +729,12 @@ func collectRaces(w *fw.Worker) {
 		return
 	}
 	files, _ := filepath.Glob(logBase + ".*")
+	sharedFiles := map[string]bool{}
+	if sf, _ := filepath.Glob(logBase + ".shared.*"); sf != nil {
+		for _, f := range sf {
+			sharedFiles[f] = true
+		}
+	}
 	seen := map[string]string{}
 	total := 0
 	for _, f := range files {
@@ -639,7 +766,7 @@ func collectRaces(w *fw.Worker) {
 				}
 			}
 			where := "job rounds"
-			if strings.Contains(blk, "sharedBuilderRun") || strings.Contains(blk, "sharedCompilerRun") {
+			if sharedFiles[f] || strings.Contains(blk, "sharedBuilderRun") || strings.Contains(blk, "sharedCompilerRun") {
 				where = "shared builder/compiler rounds"
 			}
 			if _, ok := seen[where+"|"+key]; !ok {
@@ -682,7 +809,7 @@ func init() {
 			st := &c14State{solo: map[int]JobResult{}, seed: w.Seed, orders: map[string]bool{}}
 			st.plain = os.Getenv("XJSVERIF_PLAIN")
 			if st.plain == "" {
-				st.plain = "/verif/.build/xjsverif"
+				st.plain = filepath.Join(fw.OutRoot(), ".build", "xjsverif")
 			}
 			st.kwSnap = map[string]token.Type{}
 			for k, v := range token.Keywords {
